@@ -14,6 +14,42 @@ fn rg(c: &Ctx, s: &[u8]) -> Vec<i64> {
     vec![o, l]
 }
 
+/// typed view of one option: option type followed by the values of every typed accessor (big endian bytes for integers),
+/// and for prefix information the re-encoding of the decoded struct
+fn ndp_typed(o: &icmpv6::NdpOptionSlice) -> (Vec<i64>, Vec<u8>) {
+    use icmpv6::NdpOptionSlice::*;
+    let mut f: Vec<i64> = vec![u8::from(o.option_type()) as i64];
+    let mut re: Vec<u8> = vec![];
+    match o {
+        SourceLinkLayerAddress(x) => {
+            assert!(x.option_type() == o.option_type());
+            f.extend(x.link_layer_address().iter().map(|v| *v as i64));
+        }
+        TargetLinkLayerAddress(x) => {
+            assert!(x.option_type() == o.option_type());
+            f.extend(x.link_layer_address().iter().map(|v| *v as i64));
+        }
+        PrefixInformation(x) => {
+            f.push(x.prefix_length() as i64);
+            f.push(x.on_link() as i64);
+            f.push(x.autonomous_address_configuration() as i64);
+            f.extend(x.valid_lifetime().to_be_bytes().iter().map(|v| *v as i64));
+            f.extend(x.preferred_lifetime().to_be_bytes().iter().map(|v| *v as i64));
+            f.extend(x.prefix().iter().map(|v| *v as i64));
+            let pi = x.prefix_information();
+            // the struct decoded from the same bytes must be the same value
+            let same = icmpv6::PrefixInformation::from_slice(x.as_bytes()).map(|y| y == pi).unwrap_or(false)
+                && icmpv6::PrefixInformation::from_bytes(*x.as_bytes()).map(|y| y == pi).unwrap_or(false);
+            re = if same { pi.to_bytes().to_vec() } else { vec![0xEE] };
+        }
+        RedirectedHeader(x) => f.extend(x.redirected_packet().iter().map(|v| *v as i64)),
+        Mtu(x) => f.extend(x.mtu().to_be_bytes().iter().map(|v| *v as i64)),
+        Unknown(x) => f.extend(x.data().iter().map(|v| *v as i64)),
+        _ => f.push(-99),
+    }
+    (f, re)
+}
+
 pub fn ndp_steps(c: &Ctx, mut it: icmpv6::NdpOptionsIterator) -> Vec<Value> {
     let mut steps = vec![];
     let mut nones = 0;
@@ -24,9 +60,12 @@ pub fn ndp_steps(c: &Ctx, mut it: icmpv6::NdpOptionsIterator) -> Vec<Value> {
         let v = match &r {
             None => {
                 nones += 1;
-                json!({"k": "none", "name": "", "t": -1, "rg": [-1, -1], "bytes": []})
+                json!({"k": "none", "name": "", "t": -1, "rg": [-1, -1], "bytes": [], "tf": [], "re": []})
             }
-            Some(Ok(o)) => json!({"k": "item", "name": vname(o), "t": o.as_bytes()[0], "rg": rg(c, o.as_bytes()), "bytes": o.as_bytes()}),
+            Some(Ok(o)) => {
+                let (tf, re) = ndp_typed(o);
+                json!({"k": "item", "name": vname(o), "t": o.as_bytes()[0], "rg": rg(c, o.as_bytes()), "bytes": o.as_bytes(), "tf": tf, "re": re})
+            }
             Some(Err(e)) => {
                 let _ = format!("{} {:?}", e, e);
                 use icmpv6::NdpOptionReadError::*;
@@ -37,15 +76,67 @@ pub fn ndp_steps(c: &Ctx, mut it: icmpv6::NdpOptionsIterator) -> Vec<Value> {
                     UnexpectedHeader { actual_option_id, .. } => ("UnexpectedHeader", actual_option_id.0 as i64),
                     _ => ("Other", -1),
                 };
-                json!({"k": "err", "name": name, "t": t, "rg": [-1, -1], "bytes": []})
+                json!({"k": "err", "name": name, "t": t, "rg": [-1, -1], "bytes": [], "tf": [], "re": []})
             }
         };
         steps.push(json!({"r": v, "rest": it.rest().len()}));
     }
     if budget == 0 {
-        steps.push(json!({"r": {"k": "unbounded", "name": "", "t": -1, "rg": [-1, -1], "bytes": []}, "rest": -1}));
+        steps.push(json!({"r": {"k": "unbounded", "name": "", "t": -1, "rg": [-1, -1], "bytes": [], "tf": [], "re": []}, "rest": -1}));
     }
     steps
+}
+
+fn none_pv() -> Value {
+    json!({"slice": [-1, -1], "fixed": [], "tp": [], "tp_len": -1, "tp_opts": [-1, -1], "inv": [-1, -1], "lax": -1, "alt": -1})
+}
+/// typed view of the payload behind the 8 byte ICMPv6 header
+fn payload_view(c: &Ctx, t: &Icmpv6Type, payload: &[u8], p: &icmpv6::Icmpv6PayloadSlice) -> Value {
+    use icmpv6::Icmpv6PayloadSlice::*;
+    let b = |v: &[u8]| -> Vec<i64> { v.iter().map(|x| *x as i64).collect() };
+    let lax = |x: Result<(LaxIpSlice, Option<(err::ipv6_exts::HeaderSliceError, err::Layer)>), err::ip::LaxHeaderSliceError>, inv: &[u8]| -> i64 {
+        if format!("{:?}", x) == format!("{:?}", LaxIpSlice::from_slice(inv)) { 1 } else { 0 }
+    };
+    let mut fixed: Vec<i64> = vec![];
+    let mut inv: Vec<i64> = vec![-1, -1];
+    let mut laxs: i64 = -1;
+    match p {
+        DestinationUnreachable(x) => { assert!(x.slice() == p.slice()); inv = rg(c, x.invoking_packet()); laxs = lax(x.as_lax_ip_slice(), x.invoking_packet()); }
+        PacketTooBig(x) => { assert!(x.slice() == p.slice()); inv = rg(c, x.invoking_packet()); laxs = lax(x.as_lax_ip_slice(), x.invoking_packet()); }
+        TimeExceeded(x) => { assert!(x.slice() == p.slice()); inv = rg(c, x.invoking_packet()); laxs = lax(x.as_lax_ip_slice(), x.invoking_packet()); }
+        ParameterProblem(x) => { assert!(x.slice() == p.slice()); inv = rg(c, x.invoking_packet()); laxs = lax(x.as_lax_ip_slice(), x.invoking_packet()); }
+        EchoRequest(x) => { assert!(x.slice() == p.slice()); inv = rg(c, x.data()); }
+        EchoReply(x) => { assert!(x.slice() == p.slice()); inv = rg(c, x.data()); }
+        RouterSolicitation(x) => { assert!(x.slice() == p.slice()); }
+        RouterAdvertisement(x) => {
+            assert!(x.slice() == p.slice());
+            fixed.extend(b(&x.reachable_time().to_be_bytes()));
+            fixed.extend(b(&x.retrans_timer().to_be_bytes()));
+        }
+        NeighborSolicitation(x) => { assert!(x.slice() == p.slice()); fixed.extend(b(&x.target_address().octets())); }
+        NeighborAdvertisement(x) => { assert!(x.slice() == p.slice()); fixed.extend(b(&x.target_address().octets())); }
+        Redirect(x) => {
+            assert!(x.slice() == p.slice());
+            fixed.extend(b(&x.target_address().octets()));
+            fixed.extend(b(&x.destination_address().octets()));
+        }
+        Raw(_) => {}
+        _ => {}
+    }
+    let (tp, tp_len, tp_opts) = match p.to_payload() {
+        None => (vec![], -1i64, vec![-1, -1]),
+        Some((pl, opts)) => {
+            let mut w: Vec<u8> = vec![];
+            pl.write(&mut w).unwrap();
+            assert!(pl.is_empty() == (pl.len() == 0));
+            (w, pl.len() as i64, rg(c, opts))
+        }
+    };
+    // the same view through the message type
+    let alt = t.payload_slice(payload).map(|q| q == *p).unwrap_or(false)
+        && icmpv6::Icmpv6PayloadSlice::from_slice(t, payload).map(|q| q == *p).unwrap_or(false)
+        && t.payload_from_slice(payload).map(|q| q == p.to_payload()).unwrap_or(false);
+    json!({"slice": rg(c, p.slice()), "fixed": fixed, "tp": tp, "tp_len": tp_len, "tp_opts": tp_opts, "inv": inv, "lax": laxs, "alt": if alt { 1 } else { 0 }})
 }
 
 fn none_opts() -> Value {
@@ -71,13 +162,15 @@ pub fn run_case(id: &str, case: &Value) -> Value {
             },
             "icmp6" => match Icmpv6Slice::from_slice(&b) {
                 Err(e) => json!({"ev": "icmp6", "id": id, "bytes": b, "ok": 0, "req": e.required_len, "len": e.len, "kind": "", "norm": [], "pay": [-1, -1], "hdr_same": -1,
-                                 "ps": {"k": "", "name": "", "req": -1, "len": -1}, "opts": none_opts()}),
+                                 "ps": {"k": "", "name": "", "req": -1, "len": -1}, "opts": none_opts(), "pv": none_pv(), "tc": [-1, -1, -1]}),
                 Ok(s) => {
                     let t = s.icmp_type();
                     let h = s.header();
                     let hs = Icmpv6Header::from_slice(&b).map(|(x, rest)| x == h && rest.len() == s.payload().len()).unwrap_or(false);
-                    let (ps, opts) = match s.payload_slice() {
-                        Err(e) => (json!({"k": "err", "name": "", "req": e.required_len, "len": e.len}), none_opts()),
+                    let (ps, opts, pv) = match s.payload_slice() {
+                        Err(e) => (json!({"k": "err", "name": "", "req": e.required_len, "len": e.len}), none_opts(),
+                                   // the type based entry points have to refuse as well
+                                   if t.payload_slice(s.payload()).is_err() && t.payload_from_slice(s.payload()).is_err() { none_pv() } else { json!({"slice": [-1, -1], "fixed": [], "tp": [], "tp_len": -1, "tp_opts": [-1, -1], "inv": [-1, -1], "lax": -1, "alt": 0}) }),
                         Ok(p) => {
                             use icmpv6::Icmpv6PayloadSlice::*;
                             let o = match &p {
@@ -88,11 +181,13 @@ pub fn run_case(id: &str, case: &Value) -> Value {
                                 Redirect(x) => json!({"has": 1, "rg": rg(&c, x.options()), "steps": ndp_steps(&c, x.options_iterator())}),
                                 _ => none_opts(),
                             };
-                            (json!({"k": "ok", "name": vname(&p), "req": -1, "len": -1}), o)
+                            (json!({"k": "ok", "name": vname(&p), "req": -1, "len": -1}), o, payload_view(&c, &t, s.payload(), &p))
                         }
                     };
+                    let fps = match t.fixed_payload_size() { None => -1i64, Some(x) => x as i64 };
+                    assert!(h.fixed_payload_size() == t.fixed_payload_size() && t.header_len() == 8 && h.header_len() == 8);
                     json!({"ev": "icmp6", "id": id, "bytes": b, "ok": 1, "req": -1, "len": -1, "kind": vname(&t), "norm": h.to_bytes().to_vec(), "pay": rg(&c, s.payload()),
-                           "hdr_same": if hs && h.icmp_type == t { 1 } else { 0 }, "ps": ps, "opts": opts})
+                           "hdr_same": if hs && h.icmp_type == t { 1 } else { 0 }, "ps": ps, "opts": opts, "pv": pv, "tc": [t.type_u8(), t.code_u8(), fps]})
                 }
             },
             "ndp" => json!({"ev": "ndp", "id": id, "bytes": b, "steps": ndp_steps(&c, icmpv6::NdpOptionsIterator::from_slice(&b))}),
